@@ -37,19 +37,20 @@ BIG = 2 ** 30
 
 
 def cut_big(ta, da, tb, db):
-    """integer values beyond 2^50 are outside the model (Lua numbers turn into floats / wrap): compare
-    the traces only up to the first such value of the model trace and skip the data comparison"""
-    for i, t in enumerate(tb):
+    """integer values beyond 2^30 are outside the model (Lua numbers turn into floats, Promela ints wrap) and
+    may already have influenced a comparison before they become visible: a run in which the model sees such a
+    value (in a log token or in the final store) is not compared at all (both sides are returned empty)"""
+    for t in tb:
         if t.startswith('LOG:'):
             try:
                 if abs(int(t[4:])) > BIG:
-                    return ta[:i], {}, tb[:i], {}
+                    return [], {}, [], {}
             except ValueError:
                 pass
     for v in db.values():
         try:
             if abs(int(v)) > BIG:
-                return ta, {}, tb, {}
+                return [], {}, [], {}
         except ValueError:
             pass
     return ta, da, tb, db
